@@ -202,6 +202,17 @@ Definition handle (recs : records) (mtu : Z) (cur : resp) (q : req) : resp * rsp
       end
   end.
 
+(* size of the response PDU on the wire: 5-byte header (PDU id, transaction id, parameter length), the
+   parameters, and the continuation state (b'\x01\x00' when more follows, else b'\x00') *)
+Definition cont_size (more : bool) : Z := if more then 2 else 1.
+Definition rsp_size (r : rsp) : Z :=
+  match r with
+  | EError _ => 5 + 2
+  | ESearch _ hs more => 5 + 2 + 2 + 4 * zlen hs + cont_size more
+  | EAttr p more | ESearchAttr p more => 5 + 2 + zlen p + cont_size more
+  | EUnmodelled => 0
+  end.
+
 (* ---------------------------------------------------------------- the server, many clients *)
 Record sstate := mkS {
   s_chan : option Z;              (* Server.channel: the client being served *)
